@@ -93,12 +93,26 @@ def check_tangent(run, items, x, K, label, conservative=None, ndir=3, rng=None, 
 
     worst, worst_rate = 0.0, None
     kmax = max(maxabs(Kd), 1e-300)
+    f0 = None
     for d in dirs:
         d = d / maxabs(d)
         errs = []
+        kink = False
         for h in (H1 * scale_x, H2 * scale_x):
-            fd = (f_at(h, d) - f_at(-h, d)) / (2 * h)
+            fp, fm = f_at(h, d), f_at(-h, d)
+            fd = (fp - fm) / (2 * h)
             errs.append(maxabs(fd - Kd @ d) / kmax)
+            if errs[-1] > FD_TOL:
+                # a kink (yield surface, contact switch, max-history switch crossed inside the stencil): one-sided
+                # differences disagree by O(1) instead of O(h) -> the point is outside the quantifier (DESIGN 3.5-2)
+                if f0 is None:
+                    f0 = f_at(0.0, d)
+                one_sided = maxabs((fp - f0) / h - (f0 - fm) / h) / kmax
+                if one_sided > 50 * h * max(1.0, maxabs(Kd @ d) / kmax) and one_sided > 0.2 * errs[-1]:
+                    kink = True
+        if kink:
+            run.skip(mon, "non-smooth point inside the finite-difference stencil (one-sided differences disagree)")
+            continue
         e1, e2 = errs
         if e2 > FD_TOL and e2 < 0.35 * e1:
             run.skip(mon, "finite-difference error still shrinking like h^2 (non-polynomial state): inconclusive")
